@@ -341,8 +341,11 @@ fn gen_svc_cfg(r: &mut Rng, n: usize, epoch: usize, kind: usize) -> SvcCfg {
             }
         }
     }
-    let (lo, hi, labels): (f64, f64, &'static str) = if r.bool(0.5) {
+    let (lo, hi, labels): (f64, f64, &'static str) = if r.bool(0.45) {
         (-1.0, 1.0, "pm1")
+    } else if r.bool(0.2) {
+        let (v, name) = scverif::gen::tricky_labels(r, 2);
+        (v[0], v[1], name)
     } else {
         let pairs: [(f64, f64); 8] = [(0.0, 1.0), (1.0, 2.0), (-1.0, 5.0), (1.0, 3.0), (-3.0, -1.0), (-2.5, 7.25), (-1.0, 0.0), (-7.0, 1.0)];
         if r.bool(0.7) {
